@@ -92,7 +92,7 @@ def suites():
     return [
         Suite("clock-sweep", gen_sweep, oracle=oracle_sweep, decisive=False,
               nontrivial=lambda r, o: "ok:" in o,
-              exhaustive=lambda t: t != "quick",
+              exhaustive=lambda t: False,
               rule="start / stop / switch without --time at every minute of the day x roundings {none,5,10,12,15,20,30,60} (flag or config) x date selection {default,--today,--yesterday,--tomorrow,--date} x record layouts (open range today / yesterday / both / none / tomorrow / older / empty file); quick: one day, 3 random combinations per (minute, rounding) and the full product for 23:00-0:10; thorough: the full product on the leap day 2020-02-29 and the sampled product on 6 further days (ordinary, month ends, year end/start)"),
         Suite("now-sweep", gen_now, oracle=oracle_now,
               rule="`klog total --now` at every minute for open ranges dated today / yesterday / both / older / future / shifted start",
